@@ -56,7 +56,6 @@ pub fn min_n(vi: usize) -> usize {
     match vi {
         1 => 2,
         3 => 2,
-        4 => 3,
         6 => 2,
         7 => 2,
         8 => 3,
